@@ -150,3 +150,161 @@ class verbose_logging:
         self.lg.propagate = self.saved[1]
         logging.disable(self.saved[2])
         return False
+
+
+# ---------------------------------------------------------------------------------------------------------------------------
+# The P1 time of a message, read from its wire bytes (added for C08; nothing above depends on it).
+#
+# Every FusionEngine payload defines its P1 time in one of four ways.  The table below is written from the message
+# definitions (the leading fields of each payload struct), per message type number; it does not ask the classes.
+#   'p1'       the payload starts with the P1 timestamp (seconds u32, nanoseconds u32)
+#   'details'  the payload starts with a MeasurementDetails block: measurement_time (8 bytes), measurement_time_source (u8),
+#              data_source (u8), 2 reserved bytes, p1_time (8 bytes).  The P1 time is measurement_time when the source says
+#              that measurement_time IS in P1 time (source == 1), otherwise the p1_time field
+#   'input'    the same block in a measurement *sent to* the device: the p1_time field of an input is disregarded, so the
+#              message has a P1 time only when measurement_time is in P1 time
+#   None       the message has no P1 time
+WIRE_TIME_FAMILY = {
+    10000: 'p1', 10001: 'p1', 10002: 'p1', 10003: 'p1', 10004: 'p1', 10005: 'p1', 10500: 'p1',
+    11000: 'p1', 11135: 'p1', 11136: 'p1', 12000: 'p1', 12010: 'p1', 12011: 'p1',
+    11002: 'details', 11005: 'details', 11006: 'details', 11101: 'details', 11102: 'details',
+    11123: 'details', 11124: 'details', 11125: 'details', 11126: 'details',
+    11004: 'input', 11103: 'input', 11104: 'input', 11105: 'input', 11106: 'input',
+}
+SOURCE_P1_TIME = 1
+_U32_INVALID = 0xFFFFFFFF
+
+
+def _wire_timestamp(payload, off):
+    """Seconds (float, as the format defines them: seconds + nanoseconds * 1e-9) of the timestamp at off, None if unset."""
+    if off + 8 > len(payload):
+        return None
+    sec, ns = struct.unpack_from('<II', payload, off)
+    if sec == _U32_INVALID or ns == _U32_INVALID:
+        return None
+    return sec + ns * 1e-9
+
+
+def wire_time_family(msg_type):
+    return WIRE_TIME_FAMILY.get(int(msg_type))
+
+
+def registered_types_missing_from_wire_table():
+    """Registered classes that carry a time attribute but whose type is not in WIRE_TIME_FAMILY (or the reverse): the table
+    has to be brought up to date before the time column can be judged."""
+    from fusion_engine_client.messages import message_type_to_class
+    bad = []
+    for k, c in message_type_to_class.items():
+        try:
+            o = c()
+        except Exception:
+            continue
+        has = hasattr(o, 'p1_time') or hasattr(o, 'details')
+        if has != (int(k) in WIRE_TIME_FAMILY):
+            bad.append((int(k), c.__name__))
+    return bad
+
+
+def payload_decodes(msg):
+    """True iff the registered class of this framed message parses exactly its payload bytes without raising (None: no class)."""
+    from fusion_engine_client.messages import message_type_to_class
+    mt, = struct.unpack_from('<H', msg, 10)
+    cls = None
+    for k, v in message_type_to_class.items():
+        if int(k) == mt:
+            cls = v
+    if cls is None:
+        return None
+    try:
+        cls().unpack(buffer=bytes(msg[24:]), offset=0, message_version=msg[9])
+        return True
+    except Exception:
+        return False
+
+
+def wire_p1_time(msg):
+    """Whole-second P1 time of a framed message (or None) from its bytes and WIRE_TIME_FAMILY alone.  Whether the payload is
+    decodable at all is a separate question (payload_decodes): an undecodable message has no time."""
+    mt, = struct.unpack_from('<H', msg, 10)
+    fam = WIRE_TIME_FAMILY.get(mt)
+    payload = bytes(msg[24:])
+    if fam is None:
+        return None
+    if fam == 'p1':
+        t = _wire_timestamp(payload, 0)
+    else:
+        if len(payload) < 20:
+            return None
+        if payload[8] == SOURCE_P1_TIME:
+            t = _wire_timestamp(payload, 0)
+        elif fam == 'details':
+            t = _wire_timestamp(payload, 12)
+        else:
+            t = None
+    if t is None or t >= _U32_INVALID:     # the index's 32-bit seconds field: all-ones means "none", larger does not fit
+        return None
+    return int(math.floor(t))
+
+
+def wire_expected_time(msg):
+    """The index time the property demands, from the wire bytes: None for unknown types / undecodable payloads."""
+    if wire_time_family(struct.unpack_from('<H', msg, 10)[0]) is None:
+        return None
+    if not payload_decodes(msg):
+        return None
+    return wire_p1_time(msg)
+
+
+TIME_SOURCES = (0, 1, 2, 3, 4)          # every SystemTimeSource value: INVALID, P1_TIME, TIMESTAMPED_ON_RECEPTION, SENDER_SYSTEM_TIME, GPS_TIME
+
+
+def time_family_messages(rng, per_class=None, seq0=0, extra_sources=(5, 255)):
+    """CRC-valid messages of EVERY registered class, grouped by how the class defines its P1 time, with the time fields
+    written straight into the default payload's bytes:
+      - 'details'/'input' classes: every measurement_time_source (plus out-of-range values) x measurement_time unset/set x
+        p1_time unset / same whole second as measurement_time (other fraction) / a different whole second (earlier and later)
+      - 'p1' classes: p1_time unset / set / fraction just below the next second
+      - classes without a time: the default payload, and one whose first 20 bytes look like a populated details block
+    Returns a list of (description, framed message).  per_class: keep at most that many random variants per class."""
+    import gen
+    out = []
+    seq = seq0
+
+    def ts(t):
+        if t is None:
+            return struct.pack('<II', _U32_INVALID, _U32_INVALID)
+        return struct.pack('<II', int(t), int(round((t - int(t)) * 1e9)))
+
+    for mt, name, payload, ver in gen.class_payloads():
+        fam = WIRE_TIME_FAMILY.get(mt)
+        variants = []
+        base = rng.choice([3.0, 100.0, 4000.0, 86400.0 * 7 * 2000]) + rng.randrange(0, 50)
+        if fam in ('details', 'input') and len(payload) >= 20:
+            for src in TIME_SOURCES + tuple(extra_sources):
+                for mtime in (None, base + 3.25):
+                    p1s = [None, base + 3.75, base + 0.25, base + 7.5] if mtime is not None else [None, base + 0.25]
+                    for p1 in p1s:
+                        p = bytearray(payload)
+                        p[0:8] = ts(mtime)
+                        p[8] = src
+                        p[12:20] = ts(p1)
+                        variants.append(('%s source=%d measurement_time=%s p1_time=%s' % (name, src, mtime, p1), bytes(p)))
+        elif fam == 'p1' and len(payload) >= 8:
+            for p1 in (None, base + 0.5, base + 0.999999999, 0.0):
+                p = bytearray(payload)
+                p[0:8] = ts(p1)
+                variants.append(('%s p1_time=%s' % (name, p1), bytes(p)))
+        else:
+            variants.append(('%s (default payload)' % name, payload))
+            if len(payload) >= 20:
+                p = bytearray(payload)
+                p[0:8] = ts(base + 3.25)
+                p[8] = SOURCE_P1_TIME
+                p[12:20] = ts(base + 0.25)
+                variants.append(('%s (first 20 bytes patterned like a details block)' % name, bytes(p)))
+        if per_class is not None and len(variants) > per_class:
+            variants = rng.sample(variants, per_class)
+        for d, p in variants:
+            out.append((d, gen.frame(mt, p, seq, 0, ver)))
+            seq += 1
+    return out
